@@ -256,7 +256,7 @@ func (s *session) faultRun(r *rig.Rig, w *rec.Writer, sc FaultScenario) error {
 	// a second request: the dropped plugin must not be reached any more, the others must be
 	s.timedRequest(r, "c1", fmt.Sprintf("q%d-2", s.run), sc.Req, np)
 	rd, wr := peer.Cut.Counts()
-	s.ev("End", "stuck", []string{}, "peer_read", int(rd), "peer_written", int(wr))
+	s.ev("End", "stuck", []string{}, "hung", []string{}, "peer_read", int(rd), "peer_written", int(wr))
 	vhook.Set(nil)
 	return w.WriteScenario(s.log.Events())
 }
